@@ -183,6 +183,9 @@ func errClass(err error) string {
 	if strings.Contains(msg, trie.ErrIncompatible.Error()) {
 		return "incompatible"
 	}
+	if strings.Contains(msg, "too long") {
+		return "toolong"
+	}
 	return "other"
 }
 
